@@ -361,3 +361,27 @@ package vm
 //@   callpre (*vm.VM).execOr opcode == OpOr
 //@   callpre (*vm.VM).execNot opcode == OpNot
 //@   callpre (*vm.VM).execNeg opcode == OpNeg
+
+// ---- VM built-ins (C04): no argument vector makes a built-in panic (strict)
+//@ func (*VM).registerBuiltins$1
+//@   strict
+//@ func (*VM).registerBuiltins$2
+//@   strict
+//@ func (*VM).registerBuiltins$3
+//@   strict
+//@ func (*VM).registerBuiltins$4
+//@   strict
+//@ func (*VM).registerBuiltins$5
+//@   strict
+//@ func (*VM).registerBuiltins$6
+//@   strict
+//@ func (*VM).registerBuiltins$7
+//@   strict
+//@ func (*VM).registerBuiltins$8
+//@   strict
+//@ func (*VM).registerBuiltins$9
+//@   strict
+//@ func (*VM).registerBuiltins$10
+//@   strict
+//@ func (*VM).registerBuiltins$11
+//@   strict
